@@ -32,7 +32,8 @@
 (* TLC enumerates the strings itself (Grow appends one character) and      *)
 (* keeps the outputs of all filters in `out`; the property is the          *)
 (* conjunction of Neutral, Invertible, UrlSafe, UrlInvertible,             *)
-(* EntityExact, TrimOnlyEnds, DecodeStr, HandlerTotal.                     *)
+(* EntityExact, TrimOnlyEnds, DecodeStr, HandlerTotal; Homomorphic and     *)
+(* TrimComposes carry the per-string results over to strings of any length.*)
 (***************************************************************************)
 EXTENDS Naturals, Sequences, FiniteSets, TLC
 
@@ -238,4 +239,24 @@ HandlerTotal == \A cs \in Charsets :
                        /\ (p[i].rep => (p[i].out = EscOf[str[i]] /\ EscOfDecodes[str[i]]))
                        /\ (~p[i].rep => p[i].out = <<str[i]>>)
                        /\ \A j \in DOMAIN p[i].out : (IsInput(p[i].out[j]) => Encodable(p[i].out[j], cs))
+\* LENGTH / REPETITION.  h, x, u, entity and the encoding with the handler work character by character: the
+\* output of a concatenation is the concatenation of the outputs, for every split of the string.  (Checked here
+\* on the bounded strings; harness/c10.py uses it to derive the expected output of long strings -- a pattern
+\* repeated n times -- from the output TLC exports for the pattern.)
+Parts(k) == <<SubSeq(str, 1, k), SubSeq(str, k + 1, Len(str))>>
+Homomorphic == \A k \in 0..Len(str) :
+                 LET a == Parts(k)[1]
+                     b == Parts(k)[2]
+                 IN /\ out.h = HEsc(a) \o HEsc(b) /\ out.x = XEsc(a) \o XEsc(b)
+                    /\ out.u = UEsc(a) \o UEsc(b) /\ out.entity = EntEsc(a) \o EntEsc(b)
+                    /\ \A cs \in Charsets : der.enc[cs] = Encode(a, cs) \o Encode(b, cs)
+                    /\ der.dent.val = RefDecode(EntEsc(a)).val \o RefDecode(EntEsc(b)).val
+\* trim is not character-wise, but composes: if both parts contain a non-whitespace character, trimming the
+\* concatenation strips the left end of the first and the right end of the second part only
+HasNonWs(s) == \E i \in DOMAIN s : ~IsWs(s[i])
+TrimComposes == \A k \in 0..Len(str) :
+                  LET a == Parts(k)[1]
+                      b == Parts(k)[2]
+                  IN /\ (HasNonWs(a) /\ HasNonWs(b)) => out.trim = LStripWs(a) \o RStripWs(b)
+                     /\ (~HasNonWs(a) /\ ~HasNonWs(b)) => out.trim = <<>>
 =============================================================================
